@@ -63,7 +63,7 @@ impl<M: MovingAverageConstructor> IndicatorConfig for EldersForceIndex<M> {
 	}
 
 	fn validate(&self) -> bool {
-		self.ma.ma_period() > 1 && self.period2 >= 1
+		self.ma.ma_period() > 1 && self.period2 >= 1 && self.period2 < PeriodType::MAX
 	}
 
 	fn set(&mut self, name: &str, value: String) -> Result<(), Error> {
